@@ -743,6 +743,11 @@ func (w *poolWorld) doState(id int, st connectivity.State, pubsBefore int) {
 		if wasReady && len(w.cc.pubs) != pubsBefore {
 			w.violate("C04", "C04.R4", "swap of a READY connection published a new state", "completing a refresh of a READY connection published a state/picker")
 		}
+		if !wasReady && len(w.cc.pubs) == pubsBefore {
+			// the channel became READY through the take-over: without a new picker no call can reach the replacement
+			w.violate("C07", "C07.T4", "replacement took over a channel that was not READY but no new picker was published", fmt.Sprintf("%v took over %v; calls on the latest picker cannot reach it", sc, pend))
+			w.violate("C04", "C04.R3", "no publication on a READY-ness / TRANSIENT_FAILURE change", fmt.Sprintf("%v became READY by a refresh take-over, nothing published", pend))
+		}
 		removes = 0
 	case slot != nil:
 		slot.state = st
